@@ -52,7 +52,7 @@ LEVEL_TEXT = ("Lean 4 proofs over ℚ for all inputs: window sufficiency with C 
               "symmetric. Tied to celllist.pyx / box.py by an exact dyadic correspondence stream (diagonal, signed-permutation "
               "and triclinic box matrices) and regenerated loop bounds. Partial: float32 rounding, triclinic radii beyond "
               "half the box height and pointer-cell memory safety are exercised, not proved.")
-LEVEL_NOTE = "ℚ model of float32 code; exact only where float32 arithmetic is exact; int overflow of the buffer length is a known finding"
+LEVEL_NOTE = "the source text of all 13 modelled celllist.pyx functions and 5 box.py functions is regenerated into Lean and pinned by C14_gen_src_* obligations; ℚ model of float32 code; exact only where float32 arithmetic is exact; int overflow of the buffer length is a known finding"
 TECHNIQUE = "Lean 4 proof (floor/ceil/trunc arithmetic over ℚ, list membership invariants) + exact dyadic correspondence + float64 brute-force oracle"
 
 import warnings
